@@ -255,6 +255,9 @@ def gen_cases(ctx, root, files, longdirs):
                 continue
             add("send", default_cfg(rng), [dict(sreq=mw, dec=dec, data=b"GET /big.bin HTTP/1.0\r\n\r\n")])
     add("send", default_cfg(rng), [dict(sreq=20000, dec="t", data=b"GET /nonexistent HTTP/1.0\r\n\r\n")])
+    for mw in (20000, 5000):
+        add("send", default_cfg(rng), [dict(sreq=mw, dec="t", data=b"GET /big.vnc HTTP/1.0\r\n\r\n")])      # many writes per response
+        add("send", default_cfg(rng), [dict(sreq=mw, dec="td*", data=b"GET /big.bin HTTP/1.0\r\n\r\n")])   # slow reader
     # D. not a GET
     others = [b"POST / HTTP/1.0\r\n\r\n", b"HEAD / HTTP/1.0\r\n\r\n", b"get / HTTP/1.0\r\n\r\n", b" GET / HTTP/1.0\r\n\r\n", b"GET\t/ HTTP/1.0\r\n\r\n",
               b"GET/ HTTP/1.0\r\n\r\n", b"GET \r\n\r\n", b"GET  \t \r\n\r\n", b"GET", b"\r\n\r\n", b"\n\n", b"\x00GET / HTTP/1.0\r\n\r\n",
@@ -628,14 +631,20 @@ def oracle_send(rq, impl):
         return ("httpd does not survive a client that stops reading: %s" % cr[0], feat)
     sl = [int(l.split()[1]) for l in impl if l.startswith("slice ")]
     vw = [int(l.split()[1]) for l in impl if l.startswith("vwait ")]
+    if "slowdrip" in impl or ("d" in rq["dec"] and vw and sl and vw[0] > max(rq["sreq"], 0) + sl[0]):
+        return ("a client that reads 1 KiB per select slice keeps rfbHttpCheckFds (and with it the whole RFB service) busy for %d ms of "
+                "virtual time for one 70000-byte file; rfbMaxClientWait is %d ms" % (vw[0] if vw else -1, rq["sreq"]), dict(feat, kind="send-slow-reader"))
     if "stall" in impl:
         return ("rfbHttpCheckFds keeps waiting for a client that does not read: %d ms of virtual time without progress, "
                 "rfbMaxClientWait is %d ms (select slice %s ms)" % (vw[0] if vw else -1, rq["sreq"], sl[0] if sl else "?"), feat)
     if vw and sl and rq["dec"].strip("t") == "":
         allowed = max(rq["sreq"], 0) + sl[0]
         if vw[0] > allowed:
+            if b".vnc" in rq["data"]:
+                feat = dict(feat, kind="send-stall-vnc")
             return ("a client that stops reading held rfbHttpCheckFds for %d ms of virtual time, more than rfbMaxClientWait %d ms + one "
-                    "slice of %d ms" % (vw[0], rq["sreq"], sl[0]), feat)
+                    "slice of %d ms%s" % (vw[0], rq["sreq"], sl[0], " (the results of several rfbWriteExact calls of a .vnc response are ignored: each waits again)"
+                                          if b".vnc" in rq["data"] else ""), feat)
     return None
 
 
@@ -689,6 +698,12 @@ def compare_case(env, case, ilines, mlines):
         e = oracle_send(rq, impl) if is_send else oracle_req(env, case["cfg"], segs, impl)
         if is_send:
             impl = [l for l in impl if not l.startswith(("slice ", "send "))]
+            if b".vnc" in rq["data"] or "d" in rq["dec"]:
+                # several rfbWriteExact calls per response / a slow reader: the waiting time depends on the kernel's
+                # buffer sizes; only open/close/status are compared, the time is judged by the oracle
+                impl = [l for l in impl if not l.startswith(("vwait ", "complete "))]
+                tree = [l for l in tree if not l.startswith(("vwait ", "complete "))]
+                alt = [l for l in alt if not l.startswith(("vwait ", "complete "))]
         if e and isinstance(rq, dict) and "lreq" in rq:
             e[1]["listener"] = rq["lreq"]
         if e:
